@@ -12,6 +12,7 @@ import (
 	"github.com/gorilla/websocket"
 	"github.com/vipnode/vipnode/v2/internal/verif/vh"
 	"github.com/vipnode/vipnode/v2/internal/verif/vsched"
+	"github.com/vipnode/vipnode/v2/jsonrpc2"
 	"github.com/vipnode/vipnode/v2/pool"
 	"github.com/vipnode/vipnode/v2/pool/store"
 )
@@ -26,6 +27,8 @@ type c09World struct {
 	// Part of the state key: an implementation may (and this one does) keep reverse bookkeeping per
 	// connection, so two histories with the same host->connection map are not the same state.
 	onConn map[string][]string
+	// per connection: hosts whose keep-alive arrived on it (also part of the key)
+	kaConn map[string]map[string]bool
 }
 
 var c09Hosts = []string{"A", "B"}
@@ -42,7 +45,7 @@ func c09New() *c09World {
 	vsched.ResetClock(0)
 	pw := vh.NewPoolWorld(vh.PoolConfig{Driver: vh.Memory, NoManager: true})
 	pw.Raw.SetNode(store.Node{ID: store.NodeID(vh.Identities()[0].NodeID), Kind: "geth", LastSeen: vsched.Now()})
-	return &c09World{pw: pw, reg: map[string]string{}, closed: map[string]bool{}, onConn: map[string][]string{}}
+	return &c09World{pw: pw, reg: map[string]string{}, closed: map[string]bool{}, onConn: map[string][]string{}, kaConn: map[string]map[string]bool{}}
 }
 
 func (w *c09World) apply(ev string) error {
@@ -67,6 +70,16 @@ func (w *c09World) apply(ev string) error {
 		c := f[1]
 		w.closed[c] = true
 		return w.pw.Pool.CloseRemote(w.pw.Host(c).Service())
+	case "keepalive":
+		// a registered host's keep-alive arriving on connection c (not necessarily the one it
+		// registered on): keep-alives do not move a registration
+		h, c := f[1], f[2]
+		_, err := w.pw.UpdateCtx(vh.CtxWith(w.pw.Host(c).Service()), c09Ident(h), nil, 1)
+		if w.kaConn[c] == nil {
+			w.kaConn[c] = map[string]bool{}
+		}
+		w.kaConn[c][h] = true
+		return err
 	}
 	panic(ev)
 }
@@ -79,6 +92,9 @@ func (w *c09World) events() []string {
 		}
 		for _, h := range c09Hosts {
 			evs = append(evs, "connect "+h+" "+c)
+			if _, registered := w.reg[h]; registered {
+				evs = append(evs, "keepalive "+h+" "+c)
+			}
 		}
 		evs = append(evs, "close "+c)
 	}
@@ -177,6 +193,9 @@ func c09BFS(depth, shard, nshards int) vh.Unit {
 				for c, l := range w.onConn {
 					ks = append(ks, c+":"+strings.Join(l, ">"))
 				}
+				// (keep-alives: not in the model state - they must not matter - but whatever they do to
+				// the pool's own registries is part of the key)
+				ks = append(ks, w.pw.RegistryKey())
 				sort.Strings(ks)
 				return strings.Join(ks, ",") + fmt.Sprintf("|%d", w.pw.Pool.NumRemotes())
 			},
@@ -253,6 +272,9 @@ func init() {
 			}
 			for s := 0; s < n; s++ {
 				us = append(us, c09BFS(depth, s, n))
+				if s == 0 {
+					us = append(us, c09LateReplies())
+				}
 			}
 			us = append(us, c09Race("close-old-vs-reconnect", bound+1), c09Race("two-closes-one-reconnect", bound+1))
 			us = append(us, c09Race("close-vs-peer", bound), c09Race("close-vs-peer-vs-connect", bound+1))
@@ -260,6 +282,84 @@ func init() {
 			return us
 		},
 	})
+}
+
+// C09SlowAgent answers vipnode_whitelist after a (virtual) delay, or never.
+type C09SlowAgent struct {
+	Delay time.Duration // < 0: never
+	Calls int
+}
+
+func (a *C09SlowAgent) Whitelist(ctx context.Context, nodeID string) error {
+	a.Calls++
+	if a.Delay < 0 {
+		vsched.Recv(make(chan struct{}))
+	}
+	vsched.Sleep(a.Delay)
+	return nil
+}
+
+// a host behind a real connection (two Remotes over an in-memory wire, served the way server.go
+// serves a websocket: Serve, then CloseRemote) answers the whitelist request promptly, slowly,
+// after the pool has stopped waiting, or never - and then hangs up. Whatever it did before, the
+// hang-up must be noticed and the registration must go.
+func c09LateReplies() vh.Unit {
+	name := "rpc-host-hangs-up"
+	ids := vh.Identities()
+	host, client := ids[1], ids[0]
+	return vh.Unit{Name: name, Run: func(u *vh.U) {
+		for _, delay := range []time.Duration{0, 4 * time.Second, 6 * time.Second, 20 * time.Second, -1} {
+			for _, requests := range []int{1, 2} {
+				served, remotes, offered := false, -1, 0
+				var agentCalls int
+				s := vsched.Run(vsched.Options{Drain: true, MaxTime: time.Hour}, func() {
+					pw := vh.NewPoolWorld(vh.PoolConfig{Driver: vh.Memory, NoManager: true})
+					ca, cb := vh.NewMemPipe(8)
+					poolSide := &jsonrpc2.Remote{Codec: ca, Client: &jsonrpc2.Client{}, Server: &jsonrpc2.Server{}}
+					hostSide := &jsonrpc2.Remote{Codec: cb, Client: &jsonrpc2.Client{}, Server: &jsonrpc2.Server{}}
+					ag := &C09SlowAgent{Delay: delay}
+					if err := hostSide.Server.RegisterMethod("vipnode_whitelist", ag, "Whitelist"); err != nil {
+						panic(err)
+					}
+					vsched.GoNamed("pool-serve", func() {
+						poolSide.Serve()
+						served = true
+						pw.Pool.CloseRemote(poolSide)
+					})
+					vsched.GoNamed("host-serve", func() { hostSide.Serve() })
+					if _, err := pw.Connect(host, vh.ConnectOpts{Host: true, Kind: "geth", Service: poolSide}); err != nil {
+						panic(err)
+					}
+					pw.Raw.SetNode(store.Node{ID: store.NodeID(client.NodeID), Kind: "geth", LastSeen: vsched.Now()})
+					for i := 0; i < requests; i++ {
+						if resp, _ := pw.Peer(context.Background(), client, 1, ""); resp != nil {
+							offered += len(resp.Peers)
+						}
+					}
+					vsched.Sleep(30 * time.Second) // every late answer has arrived by now
+					cb.Close()                     // the host hangs up
+					vsched.Sleep(time.Second)
+					remotes = pw.Pool.NumRemotes()
+					agentCalls = ag.Calls
+				})
+				u.R.Evaluations++
+				u.R.States++
+				u.R.Transitions += int64(len(s.Trace))
+				u.R.Traces++
+				u.Observe(fmt.Sprintf("delay=%s requests=%d offered=%d served=%v remotes=%d", delay, requests, offered, served, remotes))
+				desc := fmt.Sprintf("host answers vipnode_whitelist after %s (negative: never), %d peer requests (asked %d times, offered %d times), then hangs up", delay, requests, agentCalls, offered)
+				switch {
+				case s.Panic != nil:
+					u.Violate("registry/panic", fmt.Sprintf("%s: %v", desc, s.Panic), nil)
+				case !served || remotes != 0:
+					u.Violate("registry/hang-up-not-noticed", fmt.Sprintf("%s: the pool's serve loop for the connection ended=%v, hosts still registered=%d; threads left: %v", desc, served, remotes, s.Blocked), nil)
+				case delay >= 0 && delay < 5*time.Second && offered != requests:
+					u.Violate("registry/live-host-not-called", fmt.Sprintf("%s: a host answering within the pool's time-out was offered %d times", desc, offered), nil)
+				}
+			}
+		}
+		u.Sample("host over a real Remote pair answering the whitelist after 0s/4s/6s/20s/never, then closing the connection")
+	}}
 }
 
 // wire level: the real binary. A host's registration lives exactly as long as its WebSocket:
